@@ -3,6 +3,7 @@ from __future__ import annotations
 import binascii
 
 _BASE64_STRIP = b"=\n"
+_BASE64_CHARS = b"ABCDEFGHIJKLMNOPQRSTUVWXYZabcdefghijklmnopqrstuvwxyz0123456789+/"
 _BASE64_PAD1 = b"="
 _BASE64_PAD2 = b"=="
 
@@ -23,6 +24,10 @@ def b64s_decode(data: bytes | str) -> bytes:
     if isinstance(data, str):
         # needs bytes for replace() call, but want to accept ascii-unicode ala a2b_base64()
         data = data.encode("ascii")
+    if data.translate(None, _BASE64_CHARS):
+        # NOTE: a2b_base64() skips foreign chars and stops at an embedded "=",
+        #       which would let an altered string decode to (part of) the original.
+        raise TypeError("invalid base64 input")
     offset = len(data) % 4
     if offset == 0:
         pass
